@@ -39,9 +39,27 @@ chk("C19", "exploration",
     "Shadow reader defines the format; session/cache convenience calls are covered by the C05/C06/C07 monitors' data paths, not here.",
     "runtime monitors: round-trip oracle + strict shadow reader + ASan/UBSan, libFuzzer", "DESIGN.md section 4 / C19", "ser_mon")
 
+chk("C04", "exploration",
+    "Generated rule sets (xhtml/html, tag kinds, boolean/integer/regex/uri/relative_uri/absolute_uri properties, comments and numeric entities on/off, six encodings) x grammar-generated and mutated inputs x "
+    "{remove, escape} x replacement char: validate(filter(x)) holds, filter is idempotent, valid input is returned unchanged, accepted input is well-formed in the declared encoding, and an independent "
+    "browser-lenient tokenizer finds only tags, attributes, values, URI schemes, entities and comments that the harness's own description of the rules allows; libFuzzer in thorough. "
+    "Found and fixed: absolute_uri properties accepted relative references like http/x.",
+    "The lenient tokenizer and the rule description are the trusted oracle; rule sets are limited to the generated family; UTF-16LE is judged without the tokenizer.",
+    "runtime oracle: independent tokenizer + metamorphic relations (validate∘filter, idempotence) under ASan/UBSan, libFuzzer", "DESIGN.md section 4 / C04", "xss_mon")
+
+chk("C11", "exploration",
+    "Grammar-generated RFC 8259 documents carrying their abstract tree (all escape forms, surrogate pairs, numbers across the double range, depth 0..600) must be accepted iff depth <= 512 with node-by-node equal values; "
+    "mutations, garbage and libFuzzer input go through the any-bytes oracle (target untouched on failure, UTF-8/depth invariants, save/load fixpoint from the second round); trees built via the API are written "
+    "compact/readable into streams with hostile locales and checked by a strict RFC recogniser, python json and re-parsing; typed extraction is exact or throws for 12 integer types, float, double. "
+    "Known finding: a number within 16-digit rounding of DBL_MAX is written as text that overflows on parsing.",
+    "Strings given to the API are valid UTF-8 and numbers finite; float extraction means nearest float; duplicate keys must be refused; strtod is the numeric reference.",
+    "runtime oracle: generator-with-expected-tree, strict RFC recogniser, round-trip fixpoint, ASan/UBSan, libFuzzer", "DESIGN.md section 4 / C11", "json_mon")
+
 ENGINES = [
     dict(name="check", path="check", kind_free_text="python3 driver: builds flavors from /repo's working tree, runs monitors in parallel, known-findings matching, evidence"),
     dict(name="utf_mon", path="harness/utf_mon.cpp", serves_properties=["C14"], kind_free_text="in-process monitor, reference decoder oracle"),
+    dict(name="xss_mon", path="harness/xss_mon.cpp", serves_properties=["C04"], kind_free_text="in-process monitor with independent lenient HTML tokenizer; libFuzzer target xss_fuzz"),
+    dict(name="json_mon", path="harness/json_mon.cpp", serves_properties=["C11"], kind_free_text="in-process monitor; libFuzzer target json_fuzz"),
     dict(name="codec_mon", path="harness/codec_mon.cpp", serves_properties=["C15"], kind_free_text="in-process monitor, inverse-function oracles"),
     dict(name="crypto_mon", path="harness/crypto_mon.cpp", serves_properties=["C16"], kind_free_text="in-process differential monitor against libgcrypt"),
     dict(name="ser_mon", path="harness/ser_mon.cpp", serves_properties=["C19"], kind_free_text="in-process monitor, shadow reader; also libFuzzer target ser_fuzz"),
